@@ -1042,7 +1042,8 @@ def failAdd (calls : Nat) (checked : Bool) : Outcome (List Entry) → CallTrace
 
 """
 
-HINT_SKELETON = """/-- loop skeleton (fixed text): `for name in dltype_hints` — the entries each iteration queues, in order -/
+HINT_SKELETON = """/-- loop skeleton (fixed text): `for name in (n for n in signature.parameters if n in dltype_hints)` — the entries each
+    iteration queues, in order -/
 def hintLoop (hints : List (Name × HintAnns)) (args : List (Name × Value)) : List (Name × HintAnns) → Outcome (List Entry)
   | [] => .ok []
   | (name, _) :: rest =>
@@ -1218,8 +1219,10 @@ def gen_wrapper(lib_dir: str, header: str) -> str:
         else:
             raise TErr("wrapper: the provider chain has a final else")
     loop = rest[1]
-    if not (_src(loop.target) == "name" and _src(loop.iter) == "dltype_hints" and not loop.orelse):
-        raise TErr("wrapper: the loop is not `for name in dltype_hints`")
+    # the parameters that carry a hint, in SIGNATURE order (`dltype_hints` itself follows `__annotations__`, where CPython lists
+    # positional-only parameters after the others): read onto the declared parameters of the model's `FuncDecl`, in order
+    if not (_src(loop.target) == "name" and _src(loop.iter) == "(n for n in signature.parameters if n in dltype_hints)" and not loop.orelse):
+        raise TErr(f"wrapper: the loop is `for {_src(loop.target)} in {_src(loop.iter)}`, not `for name in (n for n in signature.parameters if n in dltype_hints)`")
     hint_step = wc.hint_block(loop.body, 0, "  ")
     tr = rest[2]
     if not (len(tr.handlers) == 1 and _src(tr.handlers[0].type) == "_errors.DLTypeError" and not tr.orelse and not tr.finalbody
@@ -1231,13 +1234,13 @@ def gen_wrapper(lib_dir: str, header: str) -> str:
     out = header
     out += "import DltypeModel.Entry\nset_option linter.unusedVariables false\nnamespace Dltype.Gen\nopen Dltype\n\n"
     out += WRAP_HEADER
-    out += "/-- one iteration of `for name in dltype_hints` in the wrapper: the entries it queues -/\n"
+    out += "/-- one iteration of the loop over the hinted parameters in the wrapper: the entries it queues -/\n"
     out += "def hintStep (hints : List (Name × HintAnns)) (args : List (Name × Value)) (name : Name) : Outcome (List Entry) :=\n  " + hint_step + "\n\n"
     out += HINT_SKELETON
     out += "/-- everything after the provider chain: the loop over the hints, the `try` block, `return retval` -/\n"
     out += "def wrapperMain (acc : Acc) (d : FuncDecl) (args : List (Name × Value)) (body : BodyResult) (σ : Scope) : CallTrace :=\n"
     out += "  let hints := allHints d\n  let registered : List Name := []\n  let calls : Nat := 0\n  let checked : Bool := false\n"
-    out += "  match hintLoop hints args hints with\n  | .ok queue =>\n    (" + main.replace("\n      ", "\n    ") + ")\n  | r => failAdd calls checked r\n\n"
+    out += "  match hintLoop hints args d.params with\n  | .ok queue =>\n    (" + main.replace("\n      ", "\n    ") + ")\n  | r => failAdd calls checked r\n\n"
     out += "/-- one call through the wrapper of `dltyped` (after hints and signature were resolved and the arguments bound) -/\n"
     out += "def wrapperCall (acc : Acc) (d : FuncDecl) (prov : Provider) (args : List (Name × Value)) (body : BodyResult) : CallTrace :=\n"
     out += "  let calls : Nat := 0\n  let checked : Bool := false\n"
